@@ -89,7 +89,7 @@ fn modules_for(pid: &str) -> &'static [&'static str] {
         "C04" => &["faults"],
         "C05" => &["rect", "circle", "ellipse", "rrect", "sector", "tri"],
         "C06" => &["styled", "circle", "ellipse", "rrect"],
-        "C07" => &["styled", "line", "text", "image", "thick", "sector"],
+        "C07" => &["styled", "line", "text", "image", "thick", "sector", "poly"],
         "C08" => &["scale"],
         "C09" => &["image"],
         "C10" => &["fb"],
@@ -209,6 +209,20 @@ fn main() {
                 }
             }
         };
+        // pixels an "unbounded" (+-2^20) recording target had to drop: the picture oracles of the op did not see them
+        let (far, fx, fy) = far_pixels_take();
+        if far > 0 {
+            if op_is_display_scale(op) {
+                ctx.expect(false, "pixel-outside-the-recording-range", || {
+                    format!("{} pixel(s) offered outside the +-2^20 recording range by an op of display scale, first ({},{})", far, fx, fy)
+                });
+            } else {
+                ctx.count("obs:far-pixels-dropped-by-an-unbounded-target(op-with-coordinates-above-2^18)");
+            }
+        } else if op_is_display_scale(op) {
+            // (evaluated for every op of display scale; the class name has no property prefix: it counts everywhere)
+            ctx.expect(true, "pixel-outside-the-recording-range", String::new);
+        }
         if res.starts_with("panic:") {
             ctx.count("result:panic");
             // a panic that the module did not turn into a result itself is always an oracle failure;
@@ -274,6 +288,15 @@ fn main() {
             d.push(',');
         }
         first = false;
+        d.push_str(&format!("\n  {}: {}", json_str(k), v));
+    }
+    d.push_str("\n },\n \"classes_evaluated\": {");
+    let mut ce: Vec<(&String, &u64)> = ctx.class_evals.iter().collect();
+    ce.sort();
+    for (i, (k, v)) in ce.iter().enumerate() {
+        if i > 0 {
+            d.push(',');
+        }
         d.push_str(&format!("\n  {}: {}", json_str(k), v));
     }
     d.push_str("\n },\n \"samples\": [");
